@@ -27,8 +27,19 @@ Tie to the code on every run:
                      Model agreement: outcome kind of every operation, the target's colour table, the set
                      of colour indices written, `col_rel_width` of the document's body/headers, and that
                      no caller-owned component changed.
-Histories run in a child process per history (forked from a process that only imported rtflite), under a
-PYTHONHASHSEED different from the baseline's; the thorough tier repeats histories under more hash seeds.
+Histories run in a child process per history (forked from a process that only imported rtflite); half of them in
+an interpreter started with one random PYTHONHASHSEED, half with another; the thorough tier repeats histories under
+more hash seeds.  "What a fresh interpreter produces" is decided against SEVERAL fresh interpreters: every target's
+reference is computed in a new interpreter with PYTHONHASHSEED=0 and in forked children of two interpreters started
+with two further random seeds; all references must agree (`Model.World.seedViolations`, clause
+`interpreter-dependent`) and the target after its history must equal them.  The string-hash seed is a component of
+the model's world (`World.seed`, it orders every `list(set(...))`); `C14_seed_irrelevant` / `C14_purity_any_interpreter`
+state that the outcome does not depend on it, and the model is run with the very seed of the history's interpreter
+and with every reference seed.  A HASH-ORDER family per pool puts sets / dicts of two and more strings everywhere the
+library handles them (subline_by with 2–3 page_by columns, two subline_by columns, 2–3 page_by / group_by columns
+in non-frame order, a colour / font / size / multi-letter format per column, 10–14 column names); the order in which
+the page_by spanning rows and the subline values are written is read off every output and compared with the model
+(the user's lists).
 """
 from __future__ import annotations
 
@@ -59,12 +70,25 @@ RULE = ("pool per round: ≥ 12 document kinds (plain, two coloured palettes, mu
         "sizes, and two members that raise after pagination has measured (ValueError, IndexError); histories: both "
         "orders of every pair of members enumerated across the run (two of three histories) or random, with failing "
         "encodes, encode-twice, drops and direct get_string_width calls (the target's own texts, same / nearby size, "
-        "same / sibling / other font, units in/mm/px, dpi 72/96/300, invalid unit or font raising) in between")
+        "same / sibling / other font, units in/mm/px, dpi 72/96/300, invalid unit or font raising) in between. "
+        "Per round also a HASH-ORDER family (appended to the pool, every member is the target of one history with 0-3 "
+        "prior operations; thorough: two): one frame with 4 nested grouping columns and 2-4 data columns and one "
+        "with 10-14 columns, column names drawn per round (30 words, with / without a numeric suffix); bodies with "
+        "subline_by + 2 page_by, subline_by + 3 page_by, 2 subline_by + 2 page_by, subline_by + 2 page_by + group_by, "
+        "2 page_by, 3 page_by new_page/first_row, 2-3 page_by new_page/column, 3 group_by, 2 page_by + 2 group_by (all "
+        "in an order that is not the frame's), one colour per column for text / background / left border plus five "
+        "more border colours (2n+... distinct names), the same with 2 page_by, one font / size / multi-letter format "
+        "('bi', 'ibs', 'b^' …) per column, the wide frame with 2 page_by, a three-section document of these. "
+        "Interpreters: histories alternate between two random PYTHONHASHSEEDs; every target's reference under "
+        "PYTHONHASHSEED=0 (new interpreter) and two further random seeds (forked children of an interpreter started "
+        "with the seed): four interpreters per target that must produce one string")
 TRUSTED = [
     "Lean 4.33 kernel; axioms ⊆ {propext, Classical.choice, Quot.sound} (audited per theorem on every run)",
     "Lean compiler for the driver executable",
     "hashlib.sha256 + length as the byte-equality witness handed to the Lean oracle",
-    "the fresh baseline is `python -m harness.props.c14_hist fresh` in a new interpreter per target",
+    "the fresh baseline is `python -m harness.props.c14_hist fresh` in a new interpreter per target (PYTHONHASHSEED=0); "
+    "the references under further hash seeds are forked children (one per target) of `python -m harness.props.c14_hist "
+    "fresh_many`, an interpreter started with that seed that has imported rtflite and polars and done nothing else",
     "harness/props/c14_hist.py reads component values through pydantic's public fields / model_dump()",
 ]
 ASSUME = [
@@ -78,10 +102,14 @@ MANIFEST = dict(
          "objects and frames by identity, constructed documents): an invariant preserved by every operation including "
          "failing encodes, hence in every world reachable by a history of any length; from it purity of the encode "
          "outcome against the fresh world, encode-twice equality, no write into caller-owned frames/components, "
-         "independence from objects the call does not name and from the enumeration order of the colour set. The "
+         "independence from objects the call does not name, from the enumeration order of the colour set and from "
+         "the interpreter's string-hash seed (a component of the world: after any history under one seed the outcome "
+         "is that of a fresh process under any other seed). The "
          "model is tied to the code on every run by a unit correspondence of the colour-index functions and by "
-         "operation histories on the real library whose target output must be byte-identical to a fresh subprocess.",
-    note="Outcome = state-dependent projection (colour table, indices, width vectors, strategies, error kind); byte "
+         "operation histories on the real library whose target output must be byte-identical to fresh subprocesses "
+         "started with several different hash seeds (which must agree with each other).",
+    note="Outcome = state-dependent projection (colour table, indices, width vectors, strategies, order of the page_by "
+         "heading rows and of the subline values, error kind); byte "
          "equality with a fresh interpreter is checked on the implementation, not proved. Thread interleavings are C15. "
          "String measurement is stateless in the code (no store; Op.measure is a no-op of the model); Props/C14memo "
          "proves that a keyed store in front of it keeps purity iff the key determines the stored value, and the "
@@ -125,6 +153,24 @@ def run_fresh(pool, target, hashseed=0, keep=False):
     if p.returncode != 0:
         raise common.MachineryError(f"fresh baseline exited {p.returncode}: {p.stderr.decode()[-800:]}")
     return json.loads(p.stdout.decode())
+
+
+def run_fresh_many(pools, tasks, hashseed, procs=None):
+    """the same reference as `run_fresh` for many (pool key, target) pairs under ONE hash seed: one interpreter
+    started with that seed imports rtflite, every target is built and encoded in its own forked child"""
+    if not tasks:
+        return []
+    req = json.dumps(dict(pools={str(k): v for k, v in pools.items()}, tasks=[[str(k), t] for k, t in tasks],
+                          procs=procs or common.NCPU))
+    p = subprocess.run([sys.executable, "-m", HIST_MOD, "fresh_many"], input=req.encode(), capture_output=True,
+                       cwd=str(common.VERIF), env=_env(hashseed), timeout=3000)
+    if p.returncode != 0:
+        raise common.MachineryError(f"fresh_many runner exited {p.returncode}: {p.stderr.decode()[-800:]}")
+    out = json.loads(p.stdout.decode())
+    for o in out:
+        if "machinery" in o:
+            raise common.MachineryError(f"fresh_many runner: {o['machinery']}\n{o.get('tb', '')}")
+    return out
 
 
 # ------------------------------------------------------------------ generators
@@ -414,6 +460,178 @@ def gen_history(rng, pool, labels):
 
 
 
+# ------------------------------------------------------------------ hash-order family (sets / dicts of str)
+
+VOCAB = ["site", "region", "arm", "sex", "visit", "cohort", "stratum", "period", "country", "agegrp", "race", "dose",
+         "trt", "center", "phase", "week", "param", "flag", "subject", "value", "result", "unit", "grade", "term",
+         "study", "block", "batch", "panel", "organ", "route"]
+FORMATS = ["bi", "ib", "bu", "iu", "biu", "b^", "i_", "us", "sb", "ibs"]
+
+
+def gen_names(rng, n):
+    """n distinct column names (some with a numeric suffix): what a set / dict of column names hashes"""
+    out = []
+    for w in rng.sample(VOCAB, n):
+        out.append(w + (str(rng.randrange(1, 10)) if rng.random() < 0.35 else ""))
+    return out
+
+
+def gen_hash_frame(rng, keys, data, nrows):
+    """grouping columns `keys`: nested runs (a column changes at least wherever the one before it changes), every run
+    has its own value NAMEv<run> — so any subset of them, in any order, is contiguous (group_by accepts it) and
+    the first row's values are words that identify their column in the output; data columns after"""
+    bounds = {0}
+    cols = []
+    for j, kname in enumerate(keys):
+        want = min(nrows, 2 + j)
+        while len(bounds) < want:
+            bounds.add(rng.randrange(1, nrows))
+        vals, r = [], -1
+        for i in range(nrows):
+            if i in bounds:
+                r += 1
+            vals.append(f"{kname.upper()}v{r}")
+        cols.append(vals)
+    rows = [[c[i] for c in cols] + [f"{d}{i}" for d in data] for i in range(nrows)]
+    return dict(cols=list(keys) + list(data), rows=rows)
+
+
+def gen_hashfamily(rng, pool, labels, names):
+    """Append to the pool a family of documents in which the library handles SETS / DICTS OF STRINGS of two or more
+    members, so that an output that follows their iteration order differs between interpreters with different
+    string-hash seeds: subline_by together with 2–3 page_by columns, two subline_by columns, 2–3 page_by columns
+    with and without new_page / pageby_row, 3 group_by columns, all of them in an order that is not the frame's;
+    one colour per column for text / background / every border side; one font, size and multi-letter text format
+    per column; a 10–14 column frame; a multi-section document of such bodies.  Column names differ from round to
+    round (words with and without a numeric suffix)."""
+    comps, frames, docs = pool["components"], pool["frames"], pool["docs"]
+    by_cls = {}
+    for i, c in enumerate(comps):
+        by_cls.setdefault(c["cls"], []).append(i)
+
+    def add(cls, **kw):
+        comps.append(dict(cls=cls, kw=kw))
+        return len(comps) - 1
+
+    nk, nd = 4, rng.randint(2, 4)
+    nm = gen_names(rng, nk + nd)
+    keys, data = nm[:nk], nm[nk:]
+    fK = len(frames)
+    frames.append(gen_hash_frame(rng, keys, data, rng.randint(6, 10)))
+    wide_names = gen_names(rng, rng.randint(10, 14))
+    fW = len(frames)
+    frames.append(gen_hash_frame(rng, wide_names[:3], wide_names[3:], rng.randint(4, 7)))
+    info = dict(members=[], keys=keys, data=data, frame=fK, wide=fW)
+    cols_all = rng.sample(names, 60)
+
+    def shared():
+        """now and then a text component / page object of the base pool (shared by identity with its documents)"""
+        o = {}
+        if rng.random() < 0.35 and by_cls.get("RTFTitle"):
+            o["title"] = rng.choice(by_cls["RTFTitle"])
+        if rng.random() < 0.25 and by_cls.get("RTFFootnote"):
+            o["footnote"] = rng.choice(by_cls["RTFFootnote"])
+        if rng.random() < 0.2 and by_cls.get("RTFPageFooter"):
+            o["page_footer"] = rng.choice(by_cls["RTFPageFooter"])
+        return o
+
+    def member(label, secs, kind="single", **others):
+        d = dict(kind=kind, secs=[list(x) for x in secs], headers="default")
+        for k in ("page", "title", "subline", "footnote", "source", "page_header", "page_footer", "figure"):
+            d[k] = others.get(k)
+        docs.append(d)
+        labels.append(label)
+        info["members"].append(len(docs) - 1)
+        return len(docs) - 1
+
+    def perm(k):
+        """k grouping columns in an order that is not the frame's (when k ≥ 2)"""
+        for _ in range(20):
+            p = rng.sample(keys, k)
+            if k < 2 or p != sorted(p, key=keys.index):
+                return p
+        return p
+
+    def body(**kw):
+        if rng.random() < 0.3:
+            kw.setdefault("text_color", rng.choice(cols_all))
+        return add("RTFBody", **kw)
+
+    p = perm(3)
+    member("hash-subline1+page_by2", [(fK, body(subline_by=[p[0]], page_by=p[1:]))], **shared())
+    p = perm(4)
+    member("hash-subline1+page_by3", [(fK, body(subline_by=[p[0]], page_by=p[1:]))], **shared())
+    p = perm(4)
+    member("hash-subline2+page_by2", [(fK, body(subline_by=p[:2], page_by=p[2:]))], **shared())
+    p = perm(4)
+    member("hash-subline1+page_by2+group_by1", [(fK, body(subline_by=[p[0]], page_by=p[1:3], group_by=[p[3]]))], **shared())
+    p = perm(2)
+    member("hash-page_by2", [(fK, body(page_by=p))], **shared())
+    p = perm(3)
+    member("hash-page_by3-new_page-first_row", [(fK, body(page_by=p, new_page=True, pageby_row="first_row"))], **shared())
+    p = perm(rng.choice([2, 3]))
+    member("hash-page_by-new_page-column", [(fK, body(page_by=p, new_page=True, pageby_row="column"))], **shared())
+    p = perm(3)
+    member("hash-group_by3", [(fK, body(group_by=p))], **shared())
+    p = perm(4)
+    member("hash-page_by2+group_by2", [(fK, body(page_by=p[:2], group_by=p[2:]))], **shared())
+    n = nk + nd
+    cc = iter(cols_all)
+    b_cols = add("RTFBody", text_color=[[next(cc) for _ in range(n)]], text_background_color=[[next(cc) for _ in range(n)]],
+                 border_color_left=[[next(cc) for _ in range(n)]], border_color_top=next(cc), border_color_bottom=next(cc),
+                 border_color_right=next(cc), border_color_first=next(cc), border_color_last=next(cc))
+    member("hash-colour-per-column", [(fK, b_cols)], **shared())
+    p = perm(2)
+    b_cols2 = add("RTFBody", page_by=p, text_color=[[next(cc) for _ in range(n)]],
+                  text_background_color=[[next(cc) for _ in range(n)]])
+    member("hash-colour-per-column+page_by2", [(fK, b_cols2)], **shared())
+    b_fonts = add("RTFBody", text_font=[[rng.choice([1, 2, 3, 4, 5, 6, 7, 8, 9, 10]) for _ in range(n)]],
+                  text_format=[[rng.choice(FORMATS) for _ in range(n)]],
+                  text_font_size=[[rng.choice([8, 9, 10, 11]) for _ in range(n)]])
+    member("hash-font-format-per-column", [(fK, b_fonts)], **shared())
+    member("hash-wide-frame+page_by2", [(fW, body(page_by=rng.sample(wide_names[:3], 2)))], **shared())
+    member("hash-multi-section", [(fK, b_cols), (fW, body()), (fK, b_fonts)], kind="multi", **shared())
+    pool["hashfamily"] = info
+    return info
+
+
+def gen_hash_history(rng, pool, labels, j):
+    """target = the j-th member of the hash-order family (every member is a target in every round); 0–3 prior
+    operations on other members, documents of the base pool and failing documents"""
+    info, docs = pool["hashfamily"], pool["docs"]
+    fam = info["members"]
+    target = fam[j % len(fam)]
+    nd = pool.get("n_base", len(docs))
+    failing = [i for i, l in enumerate(labels[:nd]) if "fail" in l or "IndexError" in l]
+    ops, kinds, live, slot = [], [], {}, 0
+    for _ in range(rng.choice([0, 1, 1, 2, 2, 3])):
+        what = rng.choice(["construct", "encode", "encode", "fail", "twice"])
+        r = rng.random()
+        did = rng.choice(failing) if what == "fail" else (rng.choice(fam) if r < 0.65 else rng.randrange(nd))
+        use_live = [s_ for s_, d in live.items() if d == did]
+        if what != "construct" and use_live and rng.random() < 0.4:
+            s_ = rng.choice(use_live)
+        else:
+            s_ = slot
+            slot += 1
+            ops.append(["construct", s_, did])
+            live[s_] = did
+        if what in ("encode", "fail"):
+            ops.append(["encode", s_])
+        elif what == "twice":
+            ops.append(["twice", s_])
+        kinds.append(what + ":" + labels[did])
+        if rng.random() < 0.25:
+            ops.append(["drop", s_])
+            live.pop(s_, None)
+    reuse = None
+    cand = [s_ for s_, d in live.items() if d == target]
+    if cand and rng.random() < 0.5:
+        reuse = rng.choice(cand)
+    hist = dict(ops=ops, target=target, reuse=reuse, target_twice=rng.random() < 0.4)
+    return hist, ("hash-order", tuple(kinds), labels[target], reuse is not None)
+
+
 # ------------------------------------------------------------------ measured family (string widths near a wrap edge)
 
 SAME_FILE = {1: [2, 10], 2: [1, 10], 10: [1, 2], 3: [4, 5], 4: [3, 5], 5: [3, 4], 6: [], 7: [], 8: []}
@@ -632,7 +850,11 @@ def corpus(names):
              # within 2 % of their column, and an ordinary 9.5 pt listing
              dict(cls="RTFBody", kw=dict(col_rel_width=[3.15, 3.10], text_font_size=9.7)),   # 9
              dict(cls="RTFPage", kw=dict(nrow=10)),                                          # 10
-             dict(cls="RTFBody", kw=dict(text_font_size=9.5))]                               # 11
+             dict(cls="RTFBody", kw=dict(text_font_size=9.5)),                               # 11
+             # round-8 seeded change (heading rows in the order of set(page_by) - set(subline_by)): a listing by site
+             # with a two-level page_by hierarchy; no history needed, the interpreters differ
+             dict(cls="RTFBody", kw=dict(subline_by=["site"], page_by=["region", "arm"])),   # 12
+             dict(cls="RTFTitle", kw=dict(text="Listing by site, region and arm"))]          # 13
     f3 = dict(cols=["g", "s", "c0"], rows=[["A", "x", "1"], ["B", "x", "2"]])
     f4 = dict(cols=["g", "s", "c0", "c1"], rows=[["A", "x", "1", "2"], ["A", "x", "3", "4"]])
     fbad = dict(cols=["g", "s", "c0"], rows=[["A", "x", "1"], ["B", "x", "2"], ["A", "x", "3"]])
@@ -640,6 +862,9 @@ def corpus(names):
     fcom = dict(cols=["ID", "Comment"],
                 rows=[[f"{i:03d}", "Subject discontinued study treatment because of a treatme"] for i in range(8)])
     fsite = dict(cols=["Site", "N"], rows=[["01", "10"], ["02", "12"]])
+    flist = dict(cols=["site", "region", "arm", "subject", "value"],
+                 rows=[[f"Site 0{1 + i // 4}", ["North", "South"][i // 2 % 2], ["Placebo", "Active"][i % 2], f"{i + 1:03d}",
+                        str(11 + i)] for i in range(8)])
 
     def d(kind, secs, headers="default", **o):
         dd = dict(kind=kind, secs=secs, headers=headers)
@@ -654,9 +879,11 @@ def corpus(names):
             d("single", [[0, 5]], dict(flat=[4])),       # 5: shared header, widths [1,3,1]
             d("single", [[0, 6]], dict(flat=[4])),       # 6: shared header, widths [3,1,1]
             d("single", [[4, 9]], page=10),              # 7: 9.7 pt, cells at the wrap edge, 10 rows per page
-            d("single", [[5, 11]])]                      # 8: 9.5 pt
-    pool = dict(components=comps, frames=[f3, f4, fbad, f5, fcom, fsite], docs=docs)
-    labels = ["shared-3col", "shared-4col", "fail-blue", "multi", "multi-2-5", "hdr-131", "hdr-311", "edge-9.7pt", "plain-9.5pt"]
+            d("single", [[5, 11]]),                      # 8: 9.5 pt
+            d("single", [[6, 12]], title=13)]            # 9: subline_by + two page_by columns
+    pool = dict(components=comps, frames=[f3, f4, fbad, f5, fcom, fsite, flist], docs=docs)
+    labels = ["shared-3col", "shared-4col", "fail-blue", "multi", "multi-2-5", "hdr-131", "hdr-311", "edge-9.7pt", "plain-9.5pt",
+              "listing-subline+page_by2"]
     hs = [dict(ops=[["construct", 0, 0]], target=1, reuse=None, target_twice=False),
           dict(ops=[["construct", 0, 1]], target=0, reuse=None, target_twice=True),
           dict(ops=[["construct", 0, 2], ["encode", 0]], target=3, reuse=None, target_twice=False),
@@ -667,7 +894,9 @@ def corpus(names):
           dict(ops=[["construct", 0, 8], ["encode", 0]], target=7, reuse=None, target_twice=False),
           dict(ops=[["construct", 0, 7], ["encode", 0]], target=8, reuse=None, target_twice=True),
           dict(ops=[["measure", dict(text="x", font=1, font_size=9.5, unit="px", dpi=96.0)]], target=7, reuse=None,
-               target_twice=False)]
+               target_twice=False),
+          dict(ops=[], target=9, reuse=None, target_twice=True),
+          dict(ops=[["construct", 0, 9], ["encode", 0]], target=9, reuse=0, target_twice=False)]
     return pool, labels, hs
 
 
@@ -679,7 +908,7 @@ def ctor_of(dd):
     return dict(kind=dd["kind"], secs=dd["secs"], headers=dd["headers"], others=others)
 
 
-def model_request(pool, hist, ob):
+def model_request(pool, hist, ob, hashseed=0, ref_seeds=()):
     ops = []
     for op in hist["ops"]:
         if op[0] == "construct":
@@ -692,7 +921,7 @@ def model_request(pool, hist, ob):
             ops.append(dict(op=op[0], n=op[1]))
     return dict(op="c14_world", heap=[[i, h] for i, h in enumerate(ob["heap0"])],
                 frames=[[i, f] for i, f in enumerate(ob["frames"])], ops=ops,
-                target=ctor_of(pool["docs"][hist["target"]]))
+                target=ctor_of(pool["docs"][hist["target"]]), seed=int(hashseed), ref_seeds=[int(x) for x in ref_seeds])
 
 
 def obs_out(o):
@@ -710,12 +939,14 @@ def target_obs(t):
     return obs_out(t.get("out"))
 
 
-def oracle_request(ob, fresh):
+def oracle_request(ob, fresh, others=()):
+    """`fresh` = the reference interpreter (PYTHONHASHSEED=0); `others` = [(hash seed, observation)] of fresh
+    interpreters started with other hash seeds"""
     tw = [[obs_out(o["a"]), obs_out(o["b"])] for o in ob["obs"] if o["kind"] == "twice" and not o.get("missing")]
     if "out2" in ob["target"]:
         tw.append([obs_out(ob["target"]["out"]), obs_out(ob["target"]["out2"])])
     return dict(op="c14_oracle", target=target_obs(ob["target"]), fresh=target_obs(fresh), twice=tw,
-                frames=ob["frame_digests"])
+                frames=ob["frame_digests"], others=[target_obs(o) for _, o in others])
 
 
 _CT = re.compile(r"\{\\colortbl;((?:\n[^\n}]*)*)\n\}")
@@ -770,15 +1001,29 @@ def pages_note(t, f):
     return f"  (pages: {a} after the history, {b} fresh)" if a is not None and b is not None else ""
 
 
-def judge(res, case, pool, hist, ob, fresh, mdl, orc):
+def order_note(obs_list):
+    """heading orders observed in the outputs (where they can be read off), per interpreter"""
+    seen = [f"{who}: {o.get('order')}" for who, o in obs_list if o.get("order")]
+    return ("  [order of the page_by spanning rows / subline values — " + " | ".join(seen) + "]") if seen else ""
+
+
+def judge(res, case, pool, hist, ob, fresh, mdl, orc, others=()):
     """returns nothing; records failures (property false on the implementation) and disagreements"""
+    hseed = case.get("hashseed")
     # --- oracle: the property itself, decided by the Lean-defined predicate on the observations
     if orc["violations"]:
         t, f = target_obs(ob["target"]), target_obs(fresh)
         why = []
         if "history-dependent" in orc["violations"]:
-            why.append(f"target after the history: {t}  vs fresh interpreter: {f}" + pages_note(ob["target"], fresh)
+            why.append(f"target after the history (interpreter with PYTHONHASHSEED={hseed}): {t}  vs fresh "
+                       f"interpreter (PYTHONHASHSEED=0): {f}" + pages_note(ob["target"], fresh)
+                       + order_note([(f"history, seed {hseed}", ob["target"]), ("fresh, seed 0", fresh)])
                        + typeset_note(pool, hist, case.get("labels") or []))
+        if "interpreter-dependent" in orc["violations"]:
+            why.append("fresh interpreters started with different string-hash seeds produce different outputs for the "
+                       "same constructor call on equal-valued objects (no history involved): "
+                       + "; ".join(f"PYTHONHASHSEED={sd}: {target_obs(o)}" for sd, o in [(0, fresh)] + list(others))
+                       + order_note([(f"seed {sd}", o) for sd, o in [(0, fresh)] + list(others)]))
         if "encode-twice-differs" in orc["violations"]:
             why.append("two consecutive rtf_encode() calls on one document differ")
         if "frame-modified" in orc["violations"]:
@@ -850,6 +1095,20 @@ def judge(res, case, pool, hist, ob, fresh, mdl, orc):
                            f"(table {mo['table']})")
             if any(b > len(codes) for b in brd):
                 dis.append(f"border colour index outside the table: {sorted(brd)}")
+    # order of the heading rows: the user's lists, in every interpreter (model: `headingCols`, `sublineBy`; the model's
+    # outcomes under the history's seed and under every reference seed are one and the same, `C14_seed_irrelevant`)
+    if any(o != mdl["fresh"] for o in mdl.get("fresh_others", [])):
+        raise common.MachineryError("model outcome depends on the hash seed")
+    if "ok" in mdl["target"] and "construct" not in t and pool["docs"][hist["target"]]["kind"] == "single":
+        sec = mdl["target"]["ok"]["secs"][0]
+        exp = dict(page_by=sec["headings"], subline_by=sec["sublines"])
+        for who, o in [(f"after the history (PYTHONHASHSEED={hseed})", t), ("fresh interpreter (PYTHONHASHSEED=0)", fresh)] \
+                + [(f"fresh interpreter (PYTHONHASHSEED={sd})", o) for sd, o in others]:
+            for key, got in (o.get("order") or {}).items():
+                res.count("heading_order_compared:" + key + (":2+" if len(got) > 1 else ":1"))
+                if got != exp[key]:
+                    dis.append(f"order in which the values of the {key} columns are written, {who}: {got}  vs the "
+                               f"body's {key} list (model): {exp[key]}")
     # caller-owned components unchanged (model: heap never written)
     m_heap = [[w, r] for _, w, r in mdl["heap_widths"]]
     if m_heap != ob["heap1"]:
@@ -928,29 +1187,48 @@ def run_unit(res, rng, names, codes):
 
 # ------------------------------------------------------------------ run
 
-def execute(res, work, hashseed, fresh_cache, strings=False):
-    """work = [(pool_key, pool, labels, hist, nt)] → run histories, baselines, model, oracle; judge"""
-    tasks = [dict(pool=p, history=h) for _, p, _, h, _ in work]
-    obs = run_histories(tasks, hashseed)
-    need = {}
+def execute(res, groups, fresh_cache, others_cache=None, ref_seeds=()):
+    """groups = [(work, hash seed of the interpreter the histories run in)], work = [(pool_key, pool, labels, hist,
+    nt)] → run histories; references: every target in a new interpreter with PYTHONHASHSEED=0 and, per seed of
+    `ref_seeds`, in a forked child of an interpreter started with that seed; model, oracle; judge"""
+    others_cache = {} if others_cache is None else others_cache
+    work, obs, seed_of = [], [], []
+    for wk, hashseed in groups:
+        o = run_histories([dict(pool=p, history=h) for _, p, _, h, _ in wk], hashseed)
+        work += wk
+        obs += o
+        seed_of += [hashseed] * len(wk)
+    need, need_others = {}, {}
     for (pk, p, _, h, _), ob in zip(work, obs):
         key = (pk, h["target"])
         if key not in fresh_cache and key not in need:
             need[key] = (p, h["target"])
-    if need:
-        with ThreadPoolExecutor(common.NCPU) as ex:
-            futs = {k: ex.submit(run_fresh, p, t, 0, False) for k, (p, t) in need.items()}
-            for k, f in futs.items():
-                fresh_cache[k] = f.result()
+        if ref_seeds and key not in others_cache and key not in need_others:
+            need_others[key] = (p, h["target"])
+    pools = {pk: p for pk, p, _, _, _ in work}
+    with ThreadPoolExecutor(common.NCPU + len(ref_seeds)) as ex:
+        keys_o = list(need_others)
+        many = [ex.submit(run_fresh_many, {k: v for k, v in pools.items() if any(k == pk for pk, _ in keys_o)},
+                          keys_o, sd, max(2, common.NCPU // 2)) for sd in ref_seeds] if keys_o else []
+        futs = {k: ex.submit(run_fresh, p, t, 0, False) for k, (p, t) in need.items()}
+        for k, f in futs.items():
+            fresh_cache[k] = f.result()
+        for sd, f in zip(ref_seeds, many):
+            for k, o in zip(keys_o, f.result()):
+                others_cache.setdefault(k, []).append((sd, o))
     reqs = []
-    for (pk, p, _, h, _), ob in zip(work, obs):
-        reqs.append(model_request(p, h, ob))
-        reqs.append(oracle_request(ob, fresh_cache[(pk, h["target"])]))
+    for (pk, p, _, h, _), ob, hashseed in zip(work, obs, seed_of):
+        key = (pk, h["target"])
+        reqs.append(model_request(p, h, ob, hashseed, [0] + [sd for sd, _ in others_cache.get(key, [])]))
+        reqs.append(oracle_request(ob, fresh_cache[key], others_cache.get(key, [])))
     outs = common.driver_batch(reqs)
-    for i, ((pk, p, labels, h, nt), ob) in enumerate(zip(work, obs)):
+    for i, ((pk, p, labels, h, nt), ob, hashseed) in enumerate(zip(work, obs, seed_of)):
         mdl, orc = outs[2 * i], outs[2 * i + 1]
-        case = dict(level="history", hashseed=hashseed, pool=p, history=h, labels=labels)
+        others = others_cache.get((pk, h["target"]), [])
+        case = dict(level="history", hashseed=hashseed, ref_seeds=[sd for sd, _ in others], pool=p, history=h,
+                    labels=labels)
         res.case(case, nt)
+        res.count("references_per_target:" + str(1 + len(others)))
         res.corr_checked += 1
         res.count("target:" + labels[h["target"]])
         res.count(f"prior_primitive_ops:{min(len(h['ops']), 9)}")
@@ -965,7 +1243,7 @@ def execute(res, work, hashseed, fresh_cache, strings=False):
         res.count("target_outcome:" + ("construct-error" if "construct" in t else kind_of_impl(t["out"])))
         if h.get("reuse") is not None:
             res.count("target_reuses_live_document")
-        judge(res, case, p, h, ob, fresh_cache[(pk, h["target"])], mdl, orc)
+        judge(res, case, p, h, ob, fresh_cache[(pk, h["target"])], mdl, orc, others)
 
 
 def run(res: common.Result, build) -> int:
@@ -999,15 +1277,27 @@ def run(res: common.Result, build) -> int:
                                          None if k % 3 == 2 else n_pair + 29 * res.seed)
             res.count("measured_history:" + ("random-ops" if k % 3 == 2 else "ordered-pair-first"))
             work.append((r, pool, labels, h, nt))
+        # hash-order family (appended after the measured family): every member is a target once (thorough: twice)
+        hinfo = gen_hashfamily(sub_rng(res.seed, "c14hash", r), pool, labels, names)
+        for k in range(len(hinfo["members"]) * (1 if quick else 2)):
+            h, nt = gen_hash_history(sub_rng(res.seed, "c14hhist", r, k), pool, labels, k)
+            res.count("hash_order_history")
+            work.append((r, pool, labels, h, nt))
     seeds = [1 + rng.randrange(4_000_000_000)]
-    execute(res, work, seeds[0], fresh_cache)
+    # the histories run in interpreters with two different hash seeds (alternating), every reference is computed
+    # under PYTHONHASHSEED=0 and under two more seeds: 4 interpreters per target that must agree
+    srng = sub_rng(res.seed, "c14seeds")
+    seeds.append(1 + srng.randrange(4_000_000_000))
+    ref_seeds = [1 + srng.randrange(4_000_000_000) for _ in range(2)]
+    others_cache = {}
+    execute(res, [(work[0::2], seeds[0]), (work[1::2], seeds[1])], fresh_cache, others_cache, ref_seeds)
     if not quick:
         # the same histories (a quarter of them) under two more hash seeds, and the baselines under another one
         for extra in range(2):
             hs = 1 + rng.randrange(4_000_000_000)
             seeds.append(hs)
             sub = [w for i, w in enumerate(work) if i % 4 == extra or w[0] == "corpus"]
-            execute(res, sub, hs, fresh_cache)
+            execute(res, [(sub, hs)], fresh_cache, others_cache, ref_seeds)
         keys = list(fresh_cache)[:: max(1, len(fresh_cache) // 150)]
         pools = {w[0]: w[1] for w in work}
         with ThreadPoolExecutor(common.NCPU) as ex:
@@ -1018,7 +1308,9 @@ def run(res: common.Result, build) -> int:
                 case = dict(level="fresh-hashseed", pool=pools[k[0]], target=k[1])
                 res.fail(case, f"fresh-interpreter output depends on PYTHONHASHSEED: {target_obs(a)} vs "
                                f"{target_obs(fresh_cache[k])}")
-    res.extra["hashseeds"] = dict(histories=seeds, baseline=0)
+    # the replay names the failing history with the fewest operations
+    res.failures.sort(key=lambda cw: len((cw[0].get("history") or {}).get("ops", ())))
+    res.extra["hashseeds"] = dict(histories=seeds, baseline=0, further_references=ref_seeds)
     res.extra["fresh_subprocesses"] = len(fresh_cache)
     return common.finish(
         res, build, RULE, TRUSTED, ASSUME,
@@ -1026,7 +1318,12 @@ def run(res: common.Result, build) -> int:
                     "initialisation, caller-owned objects and frames unwritten, live documents = their constructor's "
                     "result) holds after every operation, failing encodes included, for histories of any length. "
                     "C14_purity, C14_purity_constructed, C14_encode_twice, C14_frames_unchanged, C14_heap_unchanged, "
-                    "C14_equal_valued, C14_hashseed(_table), C14_spec_of_model follow. C14_legacy_*_witness show that "
+                    "C14_equal_valued, C14_hashseed(_table), C14_spec_of_model follow. The hash seed is a component of "
+                    "the world, constant along every history (C14_seed_unchanged); the outcome is independent of it "
+                    "(C14_seed_irrelevant(_table,_doc)), hence equal to that of a fresh interpreter with ANY seed "
+                    "(C14_purity_any_interpreter, C14_equal_valued_any_seed, C14_seed_spec_of_model); heading rows follow "
+                    "the user's lists (C14_headings_user_order); C14_seed_witness: a set of two column names is "
+                    "enumerated differently under two seeds. C14_legacy_*_witness show that "
                     "the model distinguishes the pre-repair behaviours (D18, shared widths). C14memo_*: a process-global "
                     "keyed store (cache) in front of a stateless function keeps every answer history-independent iff "
                     "its key determines the value (C14memo_pure_iff); lifted to the world with encodes and direct "
@@ -1054,18 +1351,26 @@ def replay(payload) -> int:
         bad = target_obs(a) != target_obs(b)
     else:
         pool, hist = case["pool"], case["history"]
-        ob = run_histories([dict(pool=pool, history=hist)], case.get("hashseed", 1))[0]
+        hseed = case.get("hashseed", 1)
+        ob = run_histories([dict(pool=pool, history=hist)], hseed)[0]
         fresh = run_fresh(pool, hist["target"], 0, True)
-        mdl, orc = common.driver_batch([model_request(pool, hist, ob), oracle_request(ob, fresh)])
+        # on replay every further reference is a new interpreter of its own
+        others = [(sd, run_fresh(pool, hist["target"], sd, False)) for sd in case.get("ref_seeds", [])]
+        mdl, orc = common.driver_batch([model_request(pool, hist, ob, hseed, [0] + [sd for sd, _ in others]),
+                                        oracle_request(ob, fresh, others)])
         print("history            :", hist)
         print("kinds              :", [case["labels"][o[2]] for o in hist["ops"] if o[0] == "construct"],
               "→ target", case["labels"][hist["target"]])
         print("prior observations :", [{k: v for k, v in o.items() if k != "registry"} for o in ob["obs"]])
         print("target (history)   :", target_obs(ob["target"]))
-        print("target (fresh)     :", target_obs(fresh))
+        print("target (fresh)     :", target_obs(fresh), "(PYTHONHASHSEED=0)")
+        for sd, o in others:
+            print("target (fresh)     :", target_obs(o), f"(PYTHONHASHSEED={sd})")
+        print("heading order      :", dict(history=ob["target"].get("order"), fresh=fresh.get("order"),
+                                           **{f"fresh_{sd}": o.get("order") for sd, o in others}))
         print("violated clauses   :", orc["violations"])
         tmp = common.Result("C14", "quick", 0)
-        judge(tmp, case, pool, hist, ob, fresh, mdl, orc)
+        judge(tmp, case, pool, hist, ob, fresh, mdl, orc, others)
         for _, why in tmp.failures:
             print("FAIL:", why)
         for _, why in tmp.disagreements:
